@@ -142,7 +142,7 @@ func main() {
 				if kind, detail := compare(r); kind != "" {
 					disagreements++
 					k := key + ":" + kind
-					if r.C.Family == "gen" || r.C.Family == "cls" || r.C.Family == "lit" {
+					if r.C.Family == "gen" || r.C.Family == "cls" || r.C.Family == "lit" || r.C.Family == "nsr" {
 						k += ":" + lib.Hash(r.C.Src)
 					}
 					e.Violation(k, fmt.Sprintf("%s: compiled and interpreted runs differ (%s): %s", r.C.Name, kind, detail), "php", replay(r, kind, detail))
@@ -207,7 +207,7 @@ func main() {
 			rest = append(rest, c)
 		}
 	}
-	b2 = append(b2, newBatches(e, "units", unitsLeft, 230)...)
+	b2 = append(b2, newBatches(e, "units", unitsLeft, 170)...)
 	b2 = append(b2, newBatches(e, "corpus", corpus, 1<<30)...)
 	b2 = append(b2, newBatches(e, "seeded", rest, e.Pick(70, 250))...)
 	all2, inc2 := runBatches(b2, e.Pick(6, 4), regTmpl, mainGo)
